@@ -46,36 +46,109 @@ def with_faults(cell, faults):
     return c
 
 
-def gen_matrix():
-    """every hook x fault site x a rotating exception class (+ SyntaxError, + one BaseException per pair)"""
+# exception objects that are awkward to print / construct (all subclasses of Exception)
+AWKWARD = ["StrRaises", "ReprRaises", "UnprintableArgs", "NeedsArgs", "OSErrorErrno", "UnicodeDecodeError"]
+IN_SAFE_CALL = ["SScopeStack", "SAnalysis", "SDbLoad", "STryImport", "SCompletion", "SParse"]
+FOLLOW = [RUN_IMPORT, CGLOBAL_USER, INSPECT]
+
+
+def mk(kind, ops, level="INFO", **kw):
+    c = {"kind": kind, "level": level, "jedi": False, "bad_exc": "ValueError", "runfile_text": RUNFILE_TEXT, "ops": ops}
+    c.update(kw)
+    return c
+
+
+def gen_core():
+    """log level {INFO, DEBUG} x the cell / inspect / completion hooks x every fault site, one Exception class each
+    (rotating, the awkward ones included at INFO outside the prelude): always run, also in quick"""
     cases = []
     k = 0
-    for tgt in TARGETS:
-        for site in SITES:
-            classes = [EXC_CLASSES[k % len(EXC_CLASSES)], "SyntaxError", BASE_CLASSES[k % len(BASE_CLASSES)]]
+    for level in ("INFO", "DEBUG"):
+        for tgt in (RUN_IMPORT, INSPECT, CGLOBAL, CATTR):
+            for site in SITES:
+                pool = EXC_CLASSES + (AWKWARD if (level == "INFO" and site != "SNamespaces") else [])
+                cls = pool[k % len(pool)]
+                k += 1
+                cases.append(mk("core", [{"op": "LoadExt"}, RUN_PLAIN, with_faults(tgt, [[site, cls]])] + FOLLOW, level))
+    return cases
+
+
+def gen_episodes():
+    """two consecutive episodes: an internal error, %reload_ext, another internal error at a different site"""
+    cases = []
+    for level in ("INFO", "DEBUG"):
+        for a, b, c1, c2 in (("SAnalysis", "SDbLoad", "KeyError", "OSErrorErrno" if level == "INFO" else "OSError"),
+                             ("SScopeStack", "STryImport", "TypeError", "RuntimeError")):
+            cases.append(mk("episodes", [{"op": "LoadExt"}, with_faults(RUN_IMPORT, [[a, c1]]), RUN_IMPORT, {"op": "ReloadExt"},
+                                         with_faults(RUN_TWO, [[b, c2]]), RUN_IMPORT, CGLOBAL_USER, {"op": "ReloadExt"}, RUN_IMPORT],
+                            level))
+    return cases
+
+
+def gen_awkward():
+    """exceptions whose str()/repr() raises, with unprintable arguments, with a required-argument __init__,
+    OSError with errno, UnicodeDecodeError - at sites inside _safe_call / the hooks' own guards"""
+    cases = []
+    k = 0
+    for cls in AWKWARD:
+        for tgt in (RUN_IMPORT, INSPECT, CGLOBAL, RUNFILE):
+            site = IN_SAFE_CALL[k % len(IN_SAFE_CALL)]
             k += 1
-            for cls in classes:
-                follow = [RUN_IMPORT, CGLOBAL_USER, INSPECT]
-                cases.append({"kind": "matrix", "i": len(cases), "level": "INFO", "jedi": False,
-                              "bad_exc": "ValueError", "runfile_text": RUNFILE_TEXT,
-                              "ops": [{"op": "LoadExt"}, RUN_PLAIN, with_faults(tgt, [[site, cls]])] + follow})
+            cases.append(mk("awkward", [{"op": "LoadExt"}, with_faults(tgt, [[site, cls]])] + FOLLOW))
+    return cases
+
+
+def runfile_script(script):
+    return {"op": "cell", "act": "runfile", "text": "", "names": [], "del": False, "script": script}
+
+
+NATURAL_SCRIPTS = ["latin1", "bom", "badutf8", "syntaxerr"]
+
+
+def gen_natural():
+    """%run of scripts that make pyflyby's own read / parse fail without any stub: a valid latin-1 script with a
+    coding cookie (pyflyby reads UTF-8: UnicodeDecodeError), a UTF-8 BOM (pyflyby: SyntaxError), invalid UTF-8,
+    a syntax error; alone, under a second armed stub, and at DEBUG"""
+    cases = []
+    for i, sc in enumerate(NATURAL_SCRIPTS):
+        cases.append(mk("natural", [{"op": "LoadExt"}, runfile_script(sc), RUN_IMPORT, CGLOBAL_USER]))
+        extra = [["SAnalysis", "ValueError"], ["SParse", "KeyError"], ["SDbLoad", "CustomBase"], ["SScopeStack", "OSError"]][i]
+        cases.append(mk("natural", [{"op": "LoadExt"}, with_faults(runfile_script(sc), [extra]), RUN_IMPORT, INSPECT],
+                        "DEBUG" if i % 2 else "INFO"))
+    return cases
+
+
+def gen_matrix(levels=("INFO",)):
+    """every hook x fault site x {an Exception subclass (rotating), SyntaxError, a BaseException (rotating)}"""
+    cases = []
+    k = 0
+    for level in levels:
+        for tgt in TARGETS:
+            for site in SITES:
+                classes = [EXC_CLASSES[k % len(EXC_CLASSES)], "SyntaxError", BASE_CLASSES[k % len(BASE_CLASSES)]]
+                k += 1
+                for cls in classes:
+                    cases.append(mk("matrix", [{"op": "LoadExt"}, RUN_PLAIN, with_faults(tgt, [[site, cls]])] + FOLLOW, level))
     return cases
 
 
 def gen_random(ctx, n):
     cases = []
+    healthy = HEALTHY + [runfile_script(sc) for sc in NATURAL_SCRIPTS]
     for i in range(n):
         r = cm.rng(ctx.seed, "c13", i)
+        level = r.choice(["INFO", "INFO", "INFO", "ERROR", "WARNING", "DEBUG", "DEBUG"])
         ops = [{"op": r.choice(["LoadExt", "LoadExt", "LoadFn", "Enable"])}]
         for _ in range(r.randint(2, 6)):
-            cell = r.choice(HEALTHY)
+            cell = r.choice(healthy)
             p = r.random()
             if p < .45:
                 nf = 1 if r.random() < .8 else 2
                 faults = []
                 for s in r.sample(SITES, nf):
                     q = r.random()
-                    cls = (r.choice(EXC_CLASSES) if q < .7 else "SyntaxError" if q < .8 else r.choice(BASE_CLASSES))
+                    pool = EXC_CLASSES + (AWKWARD if (level != "DEBUG" and s != "SNamespaces") else [])
+                    cls = (r.choice(pool) if q < .7 else "SyntaxError" if q < .8 else r.choice(BASE_CLASSES))
                     faults.append([s, cls])
                 cell = with_faults(cell, faults)
             elif p < .5:
@@ -84,9 +157,7 @@ def gen_random(ctx, n):
             ops.append(cell)
         bad = r.choice(["ValueError", "ImportError", "ZeroDivisionError", "CustomError", "KeyboardInterrupt", "SystemExit", "CustomBase"]
                        if r.random() < .5 else ["ValueError"])
-        level = r.choice(["INFO", "INFO", "INFO", "ERROR", "WARNING", "DEBUG"])
-        cases.append({"kind": "random", "i": i, "level": level, "jedi": r.random() < .1, "bad_exc": bad,
-                      "runfile_text": RUNFILE_TEXT, "ops": ops})
+        cases.append(mk("random", ops, level, jedi=r.random() < .1, bad_exc=bad, i=i))
     return cases
 
 
@@ -99,8 +170,8 @@ def impl_case(case):
 
 def absorbed_expected(case, o):
     """the property promises absorption for Exception subclasses at the quantified sites, outside debug mode"""
-    if case.get("level") == "DEBUG":
-        return False
+    if case.get("level") == "DEBUG" and o.get("act") != "run":
+        return False      # raise_on_error="if_debug" re-raises by design; the AST transformer passes raise_on_error=False
     for s, e in o.get("faults", []):
         if s not in QUANTIFIED or e in BASE_CLASSES:
             return False
@@ -127,7 +198,8 @@ def oracle(case, impl, ref):
         in_domain = in_domain and dom
         if not in_domain:
             continue
-        hit = sum(c.get("hits", {}).values()) > 0
+        natural = bool(c.get("natural_parse"))
+        hit = sum(c.get("hits", {}).values()) > 0 or natural
         # (1) no pyflyby exception reaches the shell
         if "escaped" in c:
             bad.append(("result_is_original", "step %d (%s, faults %r): %s escaped the hook: %s"
@@ -135,7 +207,8 @@ def oracle(case, impl, ref):
             continue
         # (2) the interaction gives what plain IPython gives (names successfully auto-imported apart)
         if rc is not None and (hit or tr[k - 1]["snap"]["st"] == "DISABLED"):
-            fields = ("result", "error", "ns_added", "ns_removed") + (("matches",) if hit else ("stdout", "matches"))
+            stub = sum(c.get("hits", {}).values()) > 0
+            fields = ("result", "error", "ns_added", "ns_removed") + (("matches",) if stub else ("stdout", "matches"))
             for f in fields:
                 if c.get(f) != rc.get(f):
                     bad.append(("result_is_original", "step %d (%s, faults %r): %s is %r, a pyflyby-free shell gives %r"
@@ -223,8 +296,21 @@ def evaluate(ctx, cases, results):
     ctx.notes["model_evaluations_in_kernel"] = len(exprs)
 
 
+ANCHORS = c14.ANCHORS + [
+    "pyflyby._interactive:AutoImporter.auto_import", "pyflyby._interactive:AutoImporter.complete_symbol",
+    "pyflyby._interactive:complete_symbol", "pyflyby._interactive:get_global_namespaces",
+    "pyflyby._interactive:InterceptPrintsDuringPromptCtx", "pyflyby._log:_PyflybyHandler.HookCtx",
+    "pyflyby._log:_PyflybyHandler.emit", "pyflyby._autoimp:auto_import", "pyflyby._autoimp:auto_import_symbol",
+    "pyflyby._autoimp:_try_import", "pyflyby._autoimp:find_missing_imports"]
+
+
 def run(ctx):
-    ctx.coverage["rule"] = ("fault matrix: every hook (run-cell one and two names, plain cell, inspect, complete global, complete "
+    cm.check_anchors(ctx, ANCHORS)
+    ctx.coverage["rule"] = ("always (also quick): log level {INFO, DEBUG} x {cell, inspect, complete global, complete attribute} x 7 "
+                            "fault sites; two-episode sessions with %reload_ext in between at both levels; exceptions whose str()/"
+                            "repr() raises, with unprintable arguments, required-argument __init__, OSError with errno, "
+                            "UnicodeDecodeError x 4 hooks; %run of scripts that make pyflyby's own read/parse fail (latin-1 with "
+                            "coding cookie, BOM, invalid UTF-8, syntax error); then the fault matrix: every hook (run-cell one and two names, plain cell, inspect, complete global, complete "
                             "attribute, %run, %prun) x every fault site (7 stubs) x {an Exception subclass (rotating over 13), "
                             "SyntaxError, a BaseException (rotating over 4)}, each followed by three healthy interactions; "
                             "+ random sessions of 2-6 interactions with 0-2 armed stubs each, failing known imports of several "
@@ -235,12 +321,15 @@ def run(ctx):
         "the import database and the modules (one importable, one raising at import) are written by the harness",
     ]
     ctx.notes["trusted_base"] = ["IPython 9.17.1 as the environment of the hooks (modelled, not verified)"]
-    matrix = gen_matrix()
+    always = gen_core() + gen_episodes() + gen_awkward() + gen_natural()
+    matrix = gen_matrix() if ctx.quick else gen_matrix(("INFO", "DEBUG"))
     if ctx.quick:
         r = cm.rng(ctx.seed, "c13-matrix")
-        matrix = r.sample(matrix, 48)
+        matrix = r.sample(matrix, min(len(matrix), 30 * ctx.scale))
     witness = [dict(w["witness"], kind="witness") for w in ctx.open_findings() if w.get("witness")]
-    cases = cm.load_corpus("C13") + witness + matrix + gen_random(ctx, 24 if ctx.quick else 300)
+    cases = cm.load_corpus("C13") + witness + always + matrix + gen_random(ctx, (24 if ctx.quick else 300) * ctx.scale)
+    for i, c in enumerate(cases):
+        c["i"] = i
     results = cm.run_impl("c13", "impl_case", cases, timeout_case=300)
     evaluate(ctx, cases, results)
 
